@@ -145,4 +145,43 @@ mod verif_k5 {
         std::mem::forget(k);
         std::mem::forget(array);
     }
+
+    fn fmt_stub(_args: std::fmt::Arguments<'_>) -> String { String::new() }
+    fn marker_schema(_name: Option<&String>, _schema: &schemars::schema::Schema) -> openapiv3::ReferenceOr<openapiv3::Schema> {
+        // stands for "the conversion of one member schema" (the recursion is not unfolded here)
+        openapiv3::ReferenceOr::Reference { reference: String::new() }
+    }
+    fn members(n: u8) -> Vec<schemars::schema::Schema> {
+        let mut v = Vec::new();
+        if n >= 1 { v.push(schemars::schema::Schema::Bool(true)); }
+        if n >= 2 { v.push(schemars::schema::Schema::Bool(true)); }
+        v
+    }
+
+    //@ harness k5_subschemas_kind_and_arity property=C08 class=bounded :: j2oas_subschemas keeps the combinator (allOf / anyOf / oneOf / not) and the number of member schemas (0, 1 or 2 members; the conversion of each member is stubbed)
+    #[kani::proof]
+    #[kani::unwind(4)]
+    #[kani::stub(j2oas_schema, marker_schema)]
+    fn k5_subschemas_kind_and_arity() {
+        let which: u8 = kani::any();
+        let n: u8 = kani::any();
+        kani::assume(which < 4 && n <= 2);
+        let mut sv = schemars::schema::SubschemaValidation::default();
+        match which {
+            0 => sv.all_of = Some(members(n)),
+            1 => sv.any_of = Some(members(n)),
+            2 => sv.one_of = Some(members(n)),
+            _ => sv.not = Some(Box::new(schemars::schema::Schema::Bool(true))),
+        }
+        let k = j2oas_subschemas(&sv);
+        match (&k, which) {
+            (openapiv3::SchemaKind::AllOf { all_of }, 0) => assert!(all_of.len() == n as usize),
+            (openapiv3::SchemaKind::AnyOf { any_of }, 1) => assert!(any_of.len() == n as usize),
+            (openapiv3::SchemaKind::OneOf { one_of }, 2) => assert!(one_of.len() == n as usize),
+            (openapiv3::SchemaKind::Not { .. }, 3) => (),
+            _ => assert!(false),
+        }
+        std::mem::forget(k);
+        std::mem::forget(sv);
+    }
 }
